@@ -401,11 +401,19 @@ func treeGen(seed int64, n int, args []string, out *json.Encoder) {
 			}
 			c.H = append(c.H, hEntry{M: m, R: rt, Ok: true, Hdr: []hdrC{}, Call: call})
 			rgs = append(rgs, rg)
-			if kind == "hdr" && rng.Intn(4) == 0 {
+			if kind == "hdr" && rng.Intn(8) == 0 && m == "GET" {
+				// the same route for all nine methods through ONE Any() call (the handle holds nine leaves)
+				c.H[len(c.H)-1].Ck = "any"
+				for _, m2 := range nineMethods[1:] {
+					c.H = append(c.H, hEntry{M: m2, R: rt, Ok: true, Hdr: []hdrC{}, Call: call, Ck: "any"})
+					rgs = append(rgs, rg)
+				}
+			} else if kind == "hdr" && rng.Intn(4) == 0 {
 				// the same route for a second method through ONE Routes() call (one handle)
 				m2 := pick(rng, []string{"POST", "HEAD", "PUT"})
 				if m2 != m {
-					c.H = append(c.H, hEntry{M: m2, R: rt, Ok: true, Hdr: []hdrC{}, Call: call})
+					c.H[len(c.H)-1].Ck = "routes"
+					c.H = append(c.H, hEntry{M: m2, R: rt, Ok: true, Hdr: []hdrC{}, Call: call, Ck: "routes"})
 					rgs = append(rgs, rg)
 				}
 			}
@@ -463,6 +471,12 @@ func treeGen(seed int64, n int, args []string, out *json.Encoder) {
 			}
 		case "hostile":
 			c.Via = "flame"
+			// some routes carry header constraints: "any headers" must be survivable for them too
+			for k := rng.Intn(3); k > 0; k-- {
+				reg := 1 + rng.Intn(len(c.H))
+				hc := hdrExprs[rng.Intn(len(hdrExprs))]
+				c.Hops = append(c.Hops, hop{Reg: reg, Hdr: []hdrC{hc}})
+			}
 			for k := 0; k < 12; k++ {
 				m := pick(rng, []string{"GET", "GET", "POST", "HEAD", "BREW", "get", "", "PROPFIND", strings.Repeat("X", 300)})
 				raw := hostilePath(rng)
